@@ -9,6 +9,7 @@ package main
 
 import (
 	"bytes"
+	"encoding/hex"
 	"encoding/json"
 	"io/ioutil"
 	"os"
@@ -46,6 +47,15 @@ func TestVerifDrive(t *testing.T) {
 	var jobsSpec []verifJob
 	if err := json.Unmarshal(raw, &jobsSpec); err != nil {
 		t.Fatal(err)
+	}
+	for i := range jobsSpec {
+		for k, h := range jobsSpec[i].Files {
+			b, err := hex.DecodeString(h)
+			if err != nil {
+				t.Fatal(err)
+			}
+			jobsSpec[i].Files[k] = string(b)
+		}
 	}
 	hdrs := map[string]string{"2E4": Header_2E4, "1E6": Header_1E6, "1E8": Header_1E8}
 	if d := os.Getenv("VERIF_C13_HEADERS"); d != "" {
